@@ -339,6 +339,14 @@ func (u *Unit) onStack(s *State, fn *ssa.Function) bool {
 
 func (u *Unit) havocCall(s *State, f *Frame, x *ssa.Call, callee *ssa.Function, args []Value) {
 	key := fnKey(callee)
+	// a method of an external struct type called through a nil pointer dereferences it
+	if recv := callee.Signature.Recv(); recv != nil && len(args) > 0 && args[0].T != nil && !u.V.inRepo(callee) {
+		if pt, ok := recv.Type().Underlying().(*types.Pointer); ok {
+			if _, isStruct := pt.Elem().Underlying().(*types.Struct); isStruct {
+				u.check(s, "nil", x, "method "+callee.Name()+" called on a nil "+types.TypeString(recv.Type(), nil), Not(Eq(args[0].T, IntLit(0))))
+			}
+		}
+	}
 	if callee.Blocks == nil || !u.V.inRepo(callee) {
 		u.Assumed["external "+key+": total (no panic), arbitrary result, writes only memory reachable from its arguments"] = true
 	} else {
@@ -346,7 +354,12 @@ func (u *Unit) havocCall(s *State, f *Frame, x *ssa.Call, callee *ssa.Function, 
 	}
 	eff := u.V.effectsOfCallee(callee, map[*ssa.Function]bool{})
 	u.havocEffects(s, eff)
-	f.Vals[x] = u.symbolic(s, "r_"+callee.Name(), resultType(callee.Signature))
+	rv := u.symbolic(s, "r_"+callee.Name(), resultType(callee.Signature))
+	if (key == "errors.New" || key == "fmt.Errorf") && rv.T != nil {
+		// these constructors never return a nil error
+		s.assume(Not(Eq(Sel(u.W.IfaceDT(), 0, rv.T), IntLit(0))))
+	}
+	f.Vals[x] = rv
 }
 
 func (u *Unit) havocEffects(s *State, eff *effects) {
